@@ -382,7 +382,7 @@ _build_cache = {}
 
 def alphabet_of(text):
     used = []
-    for w, probe in (("a", "'a'"), ("b", "'b'"), ("c", "'c'"), ("d", "'d'"), (",", "','"), ("(", "'('"), (")", "')'"), ("s", '"s"')):
+    for w, probe in (("ab", "'ab'"), ("ab", '"ab"'), ("a", "'a'"), ("b", "'b'"), ("c", "'c'"), ("d", "'d'"), (",", "','"), ("(", "'('"), (")", "')'"), ("s", '"s"')):
         if probe in text:
             used.append(w)
     if "NAME" in text:
@@ -585,6 +585,16 @@ HAND_GRAMMARS = {
         _lr("r2", "c", [[None, ["ref", "r3"]]], False),
         ["r3", True, [[[[None, peg.L("b")]], None], [[["l", ["ref", "r3"]], [None, peg.L(",")], ["n", ["tok", "NAME"]]], '("r3", l, n.string)']]],
     ],
+    # a grammar whose keyword table has exactly one entry, of two letters: names that are parts of it are still names
+    "single-keyword": [["start", False, [[[[None, peg.L("ab")], ["n", ["tok", "NAME"]], [None, ["tok", "ENDMARKER"]]], '("K", n.string)'], [[["m", ["tok", "NAME"]], ["n", ["tok", "NAME"]], [None, ["tok", "ENDMARKER"]]], '("N", m.string, n.string)']]]],
+    "single-soft-keyword": [["start", False, [[[[None, ["lit", '"ab"']], ["n", ["tok", "NAME"]], [None, ["tok", "ENDMARKER"]]], '("K", n.string)'], [[["m", ["tok", "NAME"]], [None, ["tok", "NUMBER"]], [None, ["tok", "ENDMARKER"]]], '("N", m.string)']]]],
+    # left recursion that enters through the first element of a separated list at the start of an alternative
+    "leftrec-through-gather": [["start", False, [[[["e", ["ref", "r1"]], [None, ["tok", "ENDMARKER"]]], '("S", e)'], [[["e", ["ref", "r1"]]], '("P", e)']]],
+                               ["r1", False, [[[["xs", ["gather", peg.L(","), ["ref", "r1"]]], [None, peg.L("c")]], '("g", xs)'], [[[None, peg.L("b")]], None]]]],
+    "leftrec-through-gather-indirect": [["start", False, [[[["e", ["ref", "r1"]], [None, ["tok", "ENDMARKER"]]], '("S", e)'], [[["e", ["ref", "r1"]]], '("P", e)']]],
+                                        ["r1", False, [[[["xs", ["gather", peg.L(","), ["ref", "r3"]]], [None, peg.L("a")]], '("g", xs)'], [[["t", ["ref", "r2"]], [None, peg.L("c")]], '("q", t)'], [[[None, peg.L("b")]], None]]],
+                                        ["r2", False, [[[["e", ["ref", "r1"]], [None, peg.L("(")]], '("t", e)']]],
+                                        ["r3", True, [[[["e", ["ref", "r1"]], [None, peg.L(")")]], '("u", e)'], [[["n", ["tok", "NAME"]]], '("m", n.string)']]]],
     "leftrec": [["start", False, [[[["e", ["ref", "expr"]], [None, ["tok", "ENDMARKER"]]], '("S", e)']]],
                 ["expr", False, [[[["l", ["ref", "expr"]], [None, peg.L("(")], ["r", ["ref", "term"]]], '("add", l, r)'], [[[None, ["ref", "term"]]], None]]],
                 ["term", False, [[[[None, peg.L("a")], ["e", ["ref", "expr"]], [None, peg.L(")")]], '("par", e)'], [[["n", ["tok", "NAME"]]], '("n", n.string)'], [[["n", ["tok", "NUMBER"]]], None]]]],
